@@ -274,6 +274,7 @@ func execCase(c tcase, now int64) (o outcome) {
 			res = "err"
 		}
 		o.label = c.op + ":" + res + ":" + why(v)
+		o.nontrivial = v.class == 'T'
 		if o.impl == "PANIC" {
 			o.fail("crash:"+c.op, "panic on "+strconv.Quote(raw)+": "+hx.LastPanic)
 			return
@@ -318,6 +319,7 @@ func execCase(c tcase, now int64) (o outcome) {
 			return "200 user=" + hx0(jstr(res.body["user"]))
 		})
 		o.label = fmt.Sprintf("%s:%d:%s:nf%d:%s", c.op, res.code, c.a[1], nf, why(v))
+		o.nontrivial = v.class == 'T' && nf == 2
 		if o.impl == "PANIC" {
 			o.fail("crash:"+c.op, "panic: "+hx.LastPanic)
 			return
@@ -363,6 +365,7 @@ func execCase(c tcase, now int64) (o outcome) {
 			return "200 " + identLine(jstr(res.body["user_id"]), int(jnum(res.body["expire"])), jstr(res.body["client_info"]), now)
 		})
 		o.label = fmt.Sprintf("%s:%d:%s/%s", c.op, res.code, why(hvw), why(bv))
+		o.nontrivial = bv.class == 'T'
 		if o.impl == "PANIC" {
 			o.fail("crash:"+c.op, "panic: "+hx.LastPanic)
 			return
@@ -404,6 +407,7 @@ func execCase(c tcase, now int64) (o outcome) {
 				relTime(jnum(res.body["access_expire"]), now), relTime(jnum(res.body["refresh_expire"]), now), av.word(now), nv.word(now))
 		})
 		o.label = fmt.Sprintf("refresh:%d:nf%d:%s/%s", res.code, nf, why(hvw), why(rv))
+		o.nontrivial = (hvw.class == 'T' && nf == 2) || rv.class == 'T'
 		if o.impl == "PANIC" {
 			o.fail("crash:refresh", "panic: "+hx.LastPanic)
 			return
@@ -459,6 +463,7 @@ func execCase(c tcase, now int64) (o outcome) {
 			})
 		}
 		o.label = fmt.Sprintf("%s:%v:%s", c.op, valid, why(v))
+		o.nontrivial = v.class == 'T'
 		if o.impl == "PANIC" {
 			o.fail("crash:"+c.op, "panic: "+hx.LastPanic)
 			return
@@ -471,7 +476,8 @@ func execCase(c tcase, now int64) (o outcome) {
 				o.fail("auth:wrong-user", fmt.Sprintf("%s for user %q went ahead on behalf of requester %q", c.op, q, uu))
 			}
 			judgeVerify(&o, c.op, 'e', raw, v, b, true, q, eml, ctx, true, now)
-		} else if uu == q && q != ptttype.STR_GUEST {
+		} else if sub, _ := strClaim(v.claims[1]); uu == q && q != ptttype.STR_GUEST && v.class == 'T' && v.claims[1].kind == 's' && sub == q {
+			// refused although the requester is the target and presents a token of the target: it must not be a genuine one
 			judgeVerify(&o, c.op, 'e', raw, v, b, false, q, eml, ctx, true, now)
 		}
 
